@@ -218,8 +218,8 @@ func prefilterFunc(pattern string) func(string) bool {
 		// A literal is the prefix/suffix constraint only when it survived
 		// filterShort (len >= 2), meaning it IS the first/last literal in the
 		// pattern and not replaced by a longer one that appeared elsewhere.
-		usePrefix := hasBeginAnchor(re) && len(origFirst) >= 2
-		useSuffix := hasEndAnchor(re) && len(origLast) >= 2
+		usePrefix := len(origFirst) >= 2 && literalAfterBeginAnchor(re, caseInsensitive) == origFirst
+		useSuffix := len(origLast) >= 2 && literalBeforeEndAnchor(re, caseInsensitive) == origLast
 		if !usePrefix && !useSuffix {
 			// No anchor: sort longest-first for best early exit.
 			slices.SortFunc(filtered, func(a, b string) int { return len(b) - len(a) })
@@ -984,39 +984,59 @@ func containsFoldASCIIOnly(s, needle string) bool {
 // Anchor helpers (Gap 1)
 // ---------------------------------------------------------------------------
 
-// hasBeginAnchor reports whether re requires the match to start at position 0
-// of the input. Only OpBeginText (\A) is accepted — OpBeginLine (^ with (?m))
+// literalAfterBeginAnchor returns the literal that immediately follows a
+// leading \A, i.e. the bytes every matching input must start with, or "" when
+// there is none. Only OpBeginText (\A) is accepted — OpBeginLine (^ with (?m))
 // can match after any newline and is NOT a position-0 guarantee, so using
 // strings.HasPrefix for it would produce false negatives on multi-line inputs.
-func hasBeginAnchor(re *syntax.Regexp) bool {
+//
+// The literal must be adjacent to the anchor. Being the first extracted
+// literal of an anchored pattern is not enough: in \A\sab, \Ax?ab or
+// \A(?i:a)bc other input can sit between position 0 and the first literal
+// that is long enough to be extracted.
+func literalAfterBeginAnchor(re *syntax.Regexp, ci bool) string {
 	switch re.Op {
-	case syntax.OpBeginText:
-		return true
 	case syntax.OpCapture:
-		return hasBeginAnchor(re.Sub[0])
+		return literalAfterBeginAnchor(re.Sub[0], ci)
 	case syntax.OpConcat:
-		if len(re.Sub) > 0 {
-			return hasBeginAnchor(re.Sub[0])
+		if len(re.Sub) == 0 {
+			return ""
 		}
+		if re.Sub[0].Op == syntax.OpBeginText {
+			if len(re.Sub) < 2 {
+				return ""
+			}
+			return rawLiteral(re.Sub[1], ci)
+		}
+		return literalAfterBeginAnchor(re.Sub[0], ci)
 	}
-	return false
+	return ""
 }
 
-// hasEndAnchor reports whether re requires the match to end at the very last
-// byte of the input. Only OpEndText (\z) is accepted for the same reason as
-// hasBeginAnchor — OpEndLine ($ with (?m)) can match before any newline.
-func hasEndAnchor(re *syntax.Regexp) bool {
+// literalBeforeEndAnchor returns the literal that immediately precedes a
+// trailing \z, i.e. the bytes every matching input must end with, or "" when
+// there is none. Only OpEndText (\z) is accepted for the same reason as in
+// literalAfterBeginAnchor — OpEndLine ($ with (?m)) can match before any
+// newline — and the literal must be adjacent to the anchor (ab.\z and abc*\z
+// do not have to end in "ab").
+func literalBeforeEndAnchor(re *syntax.Regexp, ci bool) string {
 	switch re.Op {
-	case syntax.OpEndText:
-		return true
 	case syntax.OpCapture:
-		return hasEndAnchor(re.Sub[0])
+		return literalBeforeEndAnchor(re.Sub[0], ci)
 	case syntax.OpConcat:
-		if len(re.Sub) > 0 {
-			return hasEndAnchor(re.Sub[len(re.Sub)-1])
+		n := len(re.Sub)
+		if n == 0 {
+			return ""
 		}
+		if re.Sub[n-1].Op == syntax.OpEndText {
+			if n < 2 {
+				return ""
+			}
+			return rawLiteral(re.Sub[n-2], ci)
+		}
+		return literalBeforeEndAnchor(re.Sub[n-1], ci)
 	}
-	return false
+	return ""
 }
 
 // hasPrefixFoldASCII reports whether s begins with prefix (ASCII case-insensitive).
@@ -1124,8 +1144,8 @@ func buildCombinedPF(v combinedRequired, ci bool, re *syntax.Regexp) func(string
 
 	var allPF func(string) bool
 	if len(filteredAll) > 0 {
-		usePrefix := hasBeginAnchor(re) && len(origFirst) >= 2
-		useSuffix := hasEndAnchor(re) && len(origLast) >= 2
+		usePrefix := len(origFirst) >= 2 && literalAfterBeginAnchor(re, ci) == origFirst
+		useSuffix := len(origLast) >= 2 && literalBeforeEndAnchor(re, ci) == origLast
 		if !usePrefix && !useSuffix {
 			slices.SortFunc(filteredAll, func(a, b string) int { return len(b) - len(a) })
 		}
